@@ -85,6 +85,16 @@ class Tree:
 
 
 def _names(rnd, k):
+    if rnd.random() < 0.15:
+        # short names: single letters and pairs of letters (a name may be a substring / a character of another one)
+        letters = rnd.sample(string.ascii_lowercase, 12)
+        pool = list(letters) + [a + b for a in letters for b in letters if a != b]
+        rnd.shuffle(pool)
+        singles = [n for n in pool if len(n) == 1]
+        rest = [n for n in pool if len(n) == 2]
+        names = singles[:6] + rest[:k]
+        rnd.shuffle(names)
+        return names[:k] if len(names) >= k else names + ['z%d' % i for i in range(k - len(names))]
     letters = rnd.sample(string.ascii_lowercase, 26)
     names = ['%s%d' % (letters[i % 26], i) for i in range(k)]
     rnd.shuffle(names)
@@ -156,6 +166,8 @@ def _gen_structure(rnd, o):
                 h = new(rnd.choice(HKINDS), n)
                 budget[0] -= 1
                 st[h]['memory'] = rnd.choice(kids)
+                if rnd.random() < 0.15:
+                    st[n]['initial'] = h        # as in tests/yaml/history.yaml: the history state is the initial state
                 if rnd.random() < (0.3 if o['mode'] == 'history' else 0.08):
                     h2 = new(rnd.choice(HKINDS), n)     # two history states in one compound
                     st[h2]['memory'] = rnd.choice(kids)
@@ -430,7 +442,7 @@ def wellformed(ch):
         if k == 'compound':
             if not s['children']:
                 pb.append('compound without children %s' % n)
-            if s['initial'] not in s['children'] or st[s['initial']]['kind'] in HKINDS:
+            if s['initial'] not in s['children']:
                 pb.append('initial of %s' % n)
         elif k == 'orthogonal':
             if not s['children']:
